@@ -229,7 +229,8 @@ def copyMove (s : Srv) (i : Nat) (move byUid : Bool) (set : List Elem) (dest pic
   match s.sel i with
   | none => (s, { status := .bad })
   | some x =>
-    if dest ≥ s.boxes.length then (s, { status := .no, code := "TRYCREATE" })
+    if move && x.ro then (s, { status := .no, code := "READ-ONLY" })        -- repaired D39
+    else if dest ≥ s.boxes.length then (s, { status := .no, code := "TRYCREATE" })
     else
       let tg := (targets x.view byUid set).map (·.2)
       let j := pickDest s i dest pick
@@ -253,6 +254,14 @@ def copyMove (s : Srv) (i : Nat) (move byUid : Bool) (set : List Elem) (dest pic
 
 /-- NOOP / CHECK -/
 def noop (s : Srv) (i : Nat) : Srv × Resp := finishOpt s i .ok ""
+
+/-- STATUS box (MESSAGES UIDNEXT UNSEEN) -/
+def status (s : Srv) (i box : Nat) : Srv × Resp :=
+  if box ≥ s.boxes.length then (s, { status := .no })
+  else
+    let b := s.box box
+    let unseen := (b.msgs.filter (fun m => !(m.flags.contains seenF))).length
+    finishOpt s i .ok s!"STATUS messages={b.msgs.length} uidnext={b.maxUid + 1} unseen={unseen}"
 
 /-- CHECK is a selected-state command -/
 def check (s : Srv) (i : Nat) : Srv × Resp :=
